@@ -383,8 +383,15 @@ pub fn families(thorough: bool) -> Vec<Vec<Leaf>> {
         // four leaves: n-ary structural operations with private and public operands in every position
         vec![Leaf::Input(i32_2.clone()), Leaf::Input(i32_2.clone()), Leaf::Input(i32_2.clone()), Leaf::Const(i32_2.clone(), vec![41, 42])],
         vec![Leaf::Input(i32_2.clone()), Leaf::Input(i32_2.clone()), Leaf::Input(i32_2.clone()), Leaf::Input(i32_2.clone())],
+        // operands of different shapes: broadcasting inside the protocols, matrix x vector, rectangular matrices
+        vec![Leaf::Input(array_type(vec![2, 2], INT32)), Leaf::Input(i32_2.clone())],
+        vec![Leaf::Input(array_type(vec![2, 3], UINT8)), Leaf::Input(array_type(vec![3, 2], UINT8))],
+        vec![Leaf::Input(array_type(vec![2, 1], BIT)), Leaf::Input(array_type(vec![1, 2], BIT))],
+        // 128-bit ring
+        vec![Leaf::Input(array_type(vec![2], ciphercore_base::data_types::INT128)), Leaf::Input(array_type(vec![2], ciphercore_base::data_types::INT128))],
     ];
     if thorough {
+        f.push(vec![Leaf::Input(array_type(vec![2, 1, 2], ciphercore_base::data_types::INT64)), Leaf::Input(array_type(vec![2, 2], ciphercore_base::data_types::INT64))]);
         f.push(vec![Leaf::Input(bit22.clone()), Leaf::Input(bit22)]);
         f.push(vec![Leaf::Input(scalar_type(INT32)), Leaf::Input(scalar_type(BIT))]);
         f.push(vec![
